@@ -97,6 +97,9 @@ func genC21(r *simrt.Rand, tier string) any {
 		RBACTTLMs:    30000, RBACCacheMax: 100,
 		YieldOnDB: r.Chance(70),
 	}
+	if r.Chance(40) {
+		p.Knobs.HoldYieldPct = []int{10, 30, 60}[r.Intn(3)]
+	}
 	p.Knobs.Follower = p.Knobs.Cluster && r.Chance(40)
 	p.Perms = []string{"read", "read,write", "read,write,delete", "admin", ""}[r.Intn(5)]
 	p.Mut = []string{"revoke", "revoke", "delete", "delete", "rotate", "rotate", "expire", "none"}[r.Intn(8)]
@@ -144,6 +147,9 @@ func genC21Sweep(r *simrt.Rand, tier string) *C21Plan {
 		AuthCacheMax: []int{1, 2, 3, 1000, 1000}[r.Intn(5)],
 		RBACTTLMs:    30000, RBACCacheMax: 100,
 		YieldOnDB: r.Chance(70),
+	}
+	if r.Chance(40) {
+		p.Knobs.HoldYieldPct = []int{10, 30, 60}[r.Intn(3)]
 	}
 	p.Knobs.Follower = p.Knobs.Cluster && r.Chance(30)
 	p.Perms = []string{"read", "read,write", "admin", ""}[r.Intn(4)]
@@ -416,6 +422,7 @@ func runC21(planAny any, cfg simrt.Config) *simkit.Outcome {
 	dir := scratchDir()
 	defer removeAll(dir)
 	c := &c21run{p: p}
+	cfg.HoldYieldPct = p.Knobs.HoldYieldPct
 	res := simrt.Run(cfg, func() {
 		ctx := context.Background()
 		if p.Knobs.Cluster {
@@ -694,6 +701,11 @@ func shrinkC21(planAny any) []any {
 		for i := range q.Verifiers {
 			q.Verifiers[i].Node = "leader"
 		}
+		out = append(out, q)
+	}
+	if p.Knobs.HoldYieldPct > 0 {
+		q := cp()
+		q.Knobs.HoldYieldPct = 0
 		out = append(out, q)
 	}
 	if p.Knobs.YieldOnDB {
